@@ -506,13 +506,16 @@ theorem surface_in_hull_of_find_ctrlpts (d : ℕ) (S : Shape K) (hS : SurfWF d S
     hu1 hu2 hv1 hv2 A lo hi hlo hhi
 
 /-- **Rational curves lie in the convex hull of the control points `find_ctrlpts` returns.**  `Pw` is the stored
-    homogeneous net (`d + 1` coordinates, positive weights on the active points); `find_ctrlpts(nurbs_curve, u)` indexes
+    homogeneous net (`d + 1` coordinates, positive weights on the active points, EVERY stored weight non-zero – `_hw0`: the
+    `ctrlpts` getter divides every stored point by its weight and raises `ZeroDivisionError` on a zero weight anywhere in
+    the net, while `separate` totalises; not used by the proof); `find_ctrlpts(nurbs_curve, u)` indexes
     `curve.ctrlpts = (separate Pw).1`, the Cartesian points.  Every `u` of the closed domain, every linear functional
     `ℓ`: the list has `p + 1` entries, the weight the evaluator divides by is positive, and `ℓ` of the PROJECTED
     evaluated point (what `evaluate_single` of a `NURBS.Curve` returns) lies between any bounds of `ℓ` on the returned
     points. -/
 theorem rational_curve_in_hull_of_find_ctrlpts (p d : ℕ) (Ul : List K) (Pw : List (List K))
-    (hC : CurveWF p (d+1) Ul Pw) (u : K) (h1 : fnOf Ul p ≤ u) (h2 : u ≤ fnOf Ul Pw.length)
+    (hC : CurveWF p (d+1) Ul Pw) (_hw0 : ∀ pt ∈ Pw, pt.getLastD 0 ≠ 0)
+    (u : K) (h1 : fnOf Ul p ≤ u) (h2 : u ≤ fnOf Ul Pw.length)
     (hwt : ∀ r, r ≤ p → 0 < (ptsGet Pw (findSpanLinear p (fnOf Ul) Pw.length u - p + r)).getD d 0) (A : ℕ → K) (lo hi : K)
     (hlo : ∀ r, r ≤ p → lo ≤ ∑ l ∈ range d, A l * ((findCtrlptsCurve [] p (fnOf Ul) (separate Pw).1 u).getD r []).getD l 0)
     (hhi : ∀ r, r ≤ p → ∑ l ∈ range d, A l * ((findCtrlptsCurve [] p (fnOf Ul) (separate Pw).1 u).getD r []).getD l 0 ≤ hi) :
@@ -523,8 +526,10 @@ theorem rational_curve_in_hull_of_find_ctrlpts (p d : ℕ) (Ul : List K) (Pw : L
   ⟨findCtrlptsCurve_length [] p (fnOf Ul) _ u,
    curvePoint_rational_in_hull_findCtrlpts p (fnOf Ul) Pw u d hC.knotsOk hC.net h1 h2 hwt A lo hi hlo hhi⟩
 
-/-- … and what `find_ctrlpts` returns for a rational curve are the projected active homogeneous points. -/
-theorem find_ctrlpts_rational_curve_entries (p : ℕ) (U : ℕ → K) (Pw : List (List K)) (u : K) (r : ℕ) (hr : r ≤ p) :
+/-- … and what `find_ctrlpts` returns for a rational curve are the projected active homogeneous points (every stored
+    weight non-zero: the guard of the `ctrlpts` getter, see above). -/
+theorem find_ctrlpts_rational_curve_entries (p : ℕ) (U : ℕ → K) (Pw : List (List K))
+    (_hw0 : ∀ pt ∈ Pw, pt.getLastD 0 ≠ 0) (u : K) (r : ℕ) (hr : r ≤ p) :
     (findCtrlptsCurve [] p U (separate Pw).1 u).getD r []
       = project (ptsGet Pw (findSpanLinear p U Pw.length u - p + r)) :=
   findCtrlptsCurve_separate_getD p U Pw u r hr
@@ -568,7 +573,7 @@ example : (0 : ℚ) ≤ ∑ l ∈ range 2, (fun l => if l = 0 then (1:ℚ) else 
   refine ⟨(rational_curve_in_hull_of_find_ctrlpts 2 2 ([0,0,0,1,1,1] : List ℚ) [[0,0,1],[2,4,2],[3/2,1/2,1/2]]
       { mono := mono_of_pairwise _ (by decide +kernel), len := by simp, pn := by simp, last := by decide +kernel,
         net := by intro pt hpt; simp at hpt; rcases hpt with h | h | h <;> simp [h] }
-      (1/2) (by decide +kernel) (by decide +kernel) ?_
+      (by decide +kernel) (1/2) (by decide +kernel) (by decide +kernel) ?_
       (fun l => if l = 0 then 1 else 0) 0 3 ?_ ?_).2.2.1, by decide +kernel⟩
   · intro r hr
     obtain rfl | rfl | rfl : r = 0 ∨ r = 1 ∨ r = 2 := by omega
@@ -933,9 +938,12 @@ theorem length_curve_rational_samples_weight_positive (p d : ℕ) (Ul : List K) 
 
 /-- **`length_curve` of a rational curve is at least the chord between the first and the last sampled
     (projected) point**, for every non-empty list of sample parameters – the lower bound that holds for
-    whatever the cached `evalpts` are (see `curve_samples_ge_chord`). -/
+    whatever the cached `evalpts` are (see `curve_samples_ge_chord`); the weight function does not vanish at the samples
+    (`_hW`: otherwise the evaluation raises `ZeroDivisionError`, the op `clen` answers `ERR`; implied by positive weights,
+    `length_curve_rational_samples_weight_positive`; not used by the proof). -/
 theorem rational_curve_samples_ge_chord {N : List K → K} {d : ℕ} (hN : IsSeminorm d N) (p : ℕ) (Ul : List K)
-    (Pw : List (List K)) (hC : CurveWF p (d + 1) Ul Pw) (ks : List K) (hne : ks ≠ []) :
+    (Pw : List (List K)) (hC : CurveWF p (d + 1) Ul Pw) (ks : List K) (hne : ks ≠ [])
+    (_hW : ∀ u ∈ ks, (curvePoint p (fnOf Ul) Pw u).getD d 0 ≠ 0) :
     N (vsub (project (curvePoint p (fnOf Ul) Pw (ks.getD (ks.length - 1) 0)))
         (project (curvePoint p (fnOf Ul) Pw (ks.getD 0 0))))
       ≤ curveLength (distN N) true p (fnOf Ul) Pw ks :=
